@@ -16,7 +16,9 @@ import (
 	"testing/synctest"
 
 	"i2psim.local/sim/adapters"
+	"i2psim.local/sim/consume"
 	"i2psim.local/sim/engine"
+	"i2psim.local/sim/obs"
 	"i2psim.local/sim/refmodel"
 	"i2psim.local/sim/seams"
 )
@@ -79,6 +81,7 @@ func genShape(r *engine.RNG, kind string, c06 bool) *engine.Shape {
 			sh.Opts, sh.Unsorted = dropEmptyKeys(sh.Opts), false
 		}
 	case "leaseset":
+		sh.Ref = adapters.RefKnob(r)
 		sh.Sig, sh.Crypto = r.PickInt(7, 7, 0, 0, 11, 1, 2), 0
 		if sh.Sig == 0 && r.Chance(1, 2) {
 			sh.Cert = "null"
@@ -92,6 +95,7 @@ func genShape(r *engine.RNG, kind string, c06 bool) *engine.Shape {
 			}
 		}
 	case "ls2", "mls":
+		sh.Ref = adapters.RefKnob(r)
 		sh.Sig, sh.Crypto = r.PickInt(7, 7, 7, 11, 11, 0, 0, 1), r.PickInt(4, 0)
 		if sh.Sig == 0 && r.Chance(1, 2) {
 			sh.Cert, sh.Crypto = "null", 0 // classic ElGamal + DSA destination
@@ -169,6 +173,11 @@ func (World) Generate(r *engine.RNG, tier string) *engine.Script {
 		op := engine.Op{Op: "publish", Struct: kind, Shape: genShape(r.Fork(), kind, prop == "C06"), N: []int64{int64(i)}}
 		if prop == "C06" {
 			op.Op = "construct"
+			if r.Chance(1, 3) {
+				// the application looks at the value (every read-only accessor)
+				// between constructing it and verifying / publishing it
+				op.S = []string{"use-first"}
+			}
 		}
 		op.Actor = fmt.Sprintf("pub%d", op.Shape.IdentSeed)
 		s.Ops = append(s.Ops, op)
@@ -863,8 +872,9 @@ func c06Label(sh *engine.Shape) string {
 
 // c06Check runs the C06 obligations for one shape; it returns "" or the
 // failed obligation and a detail.
-func c06Check(o *engine.Outcome, sh *engine.Shape, count bool, ef *engine.Fault) (string, string) {
+func c06Check(o *engine.Outcome, sh *engine.Shape, count bool, ef *engine.Fault, useFirst bool) (string, string) {
 	var c *constructed
+	var val any
 	var err error
 	saved := rand.Reader
 	var fr *seams.FaultyReader
@@ -872,7 +882,7 @@ func c06Check(o *engine.Outcome, sh *engine.Shape, count bool, ef *engine.Fault)
 		fr = &seams.FaultyReader{Under: saved, Kind: ef.Kind, Param: int(ef.N[0])}
 		rand.Reader = fr
 	}
-	panicked := o.Guard("construct "+sh.Kind, func() { c, err = construct(sh) })
+	panicked := o.Guard("construct "+sh.Kind, func() { c, val, err = constructWithValue(sh) })
 	rand.Reader = saved
 	if fr != nil && fr.Fired && count {
 		o.Fault(fr.Kind)
@@ -891,6 +901,17 @@ func c06Check(o *engine.Outcome, sh *engine.Shape, count bool, ef *engine.Fault)
 	}
 	if count {
 		o.Probe("constructed:" + c06Label(sh))
+	}
+	if useFirst && val != nil {
+		// read-only use of the value must not disturb what was signed
+		if count {
+			o.Fault("accessors-called-between-signing-and-verifying")
+		}
+		o.Guard("use constructed "+sh.Kind, func() {
+			uo := obs.Options{Deny: useDeny, Args: consume.SynthArgs, ArgMethod: func(n string) bool { return consume.ReadOnlyName(n) && n != "Equals" && n != "Equal" }}
+			_ = obs.Observe(val, &uo)
+			_ = consume.Consumers(val)
+		})
 	}
 	var verr error
 	if o.Guard("verify constructed", func() { verr = c.verify() }) {
@@ -958,6 +979,9 @@ func c06Check(o *engine.Outcome, sh *engine.Shape, count bool, ef *engine.Fault)
 	return "", ""
 }
 
+// useDeny: methods that are not read-only uses of a constructed value.
+var useDeny = map[string]bool{".Sign": true, ".AddAddress": true, ".AddLease": true, ".SetOptions": true}
+
 func executeC06(s *engine.Script, o *engine.Outcome) {
 	for i := range s.Ops {
 		op := &s.Ops[i]
@@ -979,14 +1003,20 @@ func executeC06(s *engine.Script, o *engine.Outcome) {
 				}
 			}
 		}
-		fail, detail := c06Check(o, sh, true, ef)
+		useFirst := len(op.S) > 0 && op.S[0] == "use-first"
+		fail, detail := c06Check(o, sh, true, ef, useFirst)
 		if fail != "" {
 			feat := c06Label(sh)
+			if useFirst {
+				if f2, _ := c06Check(o, sh, false, ef, false); f2 != fail {
+					feat += "/only-after-read-only-accessors-were-called"
+				}
+			}
 			// is the content (options / addresses) needed for the failure?
 			if len(sh.Opts) > 0 || len(sh.Sub) > 0 {
 				plain := *sh
 				plain.Opts, plain.Sub = nil, nil
-				if f2, _ := c06Check(o, &plain, false, ef); f2 != fail {
+				if f2, _ := c06Check(o, &plain, false, ef, useFirst); f2 != fail {
 					feat += "/needs-options"
 					if hasShortPair(sh) {
 						feat += "-with-a-pair-shorter-than-6-bytes"
